@@ -215,9 +215,11 @@ pub fn plan(prop: &str, tier: &str) -> Option<Plan> {
                 s.push(e2(prop, "u32", H_CONST, "look1+mut+ch0+shape2", &[], 3, "chk", 40.0));
                 s.push(e1(prop, "u32", H_GOOD, 0, "look1+mut+ch0+shape", &[], 600, 1, 0, "chk", 40.0));
                 s.push(e1(prop, "u32", H_LOW, 0, "look1+mut+ch0+shape", &[], 300, 1, 0, "chk", 40.0));
+                s.push(e1(prop, "u32", H_GOOD, 0, "rmold/rmold/look1+mut1+ch0+iterlite", &["cursor"], 72, 3, 0, "chk", 40.0));
+                s.push(e1(prop, "u32", H_LOW, 0, "rmold/rmold/look1+mut1+ch0+iterlite", &["cursor"], 72, 3, 0, "chk", 40.0));
                 s.push(sweep(prop, "u32", H_GOOD, 100_000, &["cheap"], &[("stride", "3"), ("audit_every", "10000"), ("mix", "1")], "chk", 40.0));
                 s.push(sweep(prop, "u32", H_TAG, 30_000, &["cheap"], &[("stride", "8"), ("audit_every", "5000"), ("mix", "1")], "chk", 40.0));
-                bounds = json!({"E1-large": "d<=1 with class keys at every point of the growth path to N=600 (HGood) / 300 (HLow)", "E7": "growth path to 10^5 elements with a mixed call menu (entry / raw entry / get_mut / remove_entry on keys of either table, tombstones) against the reference, full audit every 10^4 steps", "E1": "d<=1 at N=64 (u32, 4 hashers, every concrete key) and N=130 (cap0=29); d<=2 at N=31 (class keys in layer 2)", "E2": "fixpoint over u=4 keys (HGood,HLow), u=3 (HConst, Tk), u=1 (ZST)"});
+                bounds = json!({"E1-deep": "d<=3 at N=72 where the first two deviations remove old-table elements the cursor has not reached (4 location classes x 4 removal APIs)", "E1-large": "d<=1 with class keys at every point of the growth path to N=600 (HGood) / 300 (HLow)", "E7": "growth path to 10^5 elements with a mixed call menu (entry / raw entry / get_mut / remove_entry on keys of either table, tombstones) against the reference, full audit every 10^4 steps", "E1": "d<=1 at N=64 (u32, 4 hashers, every concrete key) and N=130 (cap0=29); d<=2 at N=31 (class keys in layer 2)", "E2": "fixpoint over u=4 keys (HGood,HLow), u=3 (HConst, Tk), u=1 (ZST)"});
             } else {
                 for &hk in &HS4 {
                     for &c in &[0usize, 1, 4, 29] {
@@ -391,6 +393,7 @@ pub fn plan(prop: &str, tier: &str) -> Option<Plan> {
                     if prof == "chk" {
                         s.push(e1(prop, "tk", H_GOOD, 0, "rmold/look1+mut1+ch0+iterlite+clone", &fl, 72, 2, 0, prof, 45.0));
                         s.push(e1(prop, "tk", H_GOOD, 0, "look1+mut+ch0+shape+iterlite", &fl, 300, 1, 0, prof, 45.0));
+                        s.push(e1(prop, "tk", H_LOW, 0, "rmold/rmold/look1+mut1+ch0+iterlite", &fl, 72, 3, 0, prof, 45.0));
                     } else {
                         s.push(e1(prop, "tk", H_GOOD, 0, "rmold", &fl, 72, 1, 0, prof, 45.0));
                     }
@@ -460,6 +463,7 @@ pub fn plan(prop: &str, tier: &str) -> Option<Plan> {
                 s.push(e1(prop, "u32", H_GOOD, 0, "rmold/iter", &["cursor"], 72, 2, 0, "chk", 45.0));
                 s.push(e1(prop, "u32", H_LOW, 0, "rmold/iter", &["cursor"], 72, 2, 0, "chk", 45.0));
                 s.push(e1(prop, "u32", H_GOOD, 0, "iter", &["cursor"], 400, 1, 0, "chk", 45.0));
+                s.push(e1(prop, "u32", H_GOOD, 0, "rmold/rmold/iter", &["cursor"], 72, 3, 0, "chk", 45.0));
                 s.push(e1(prop, "tk", H_GOOD, 0, a, &[], 31, 2, 1, "chk", 45.0));
                 s.push(e2(prop, "u32", H_GOOD, "mut1+ch0+shape2+iter", &[], 3, "chk", 45.0));
                 s.push(e2(prop, "zst", H_GOOD, "mut+bulk2+shape2+iter", &[], 1, "chk", 45.0));
@@ -496,6 +500,7 @@ pub fn plan(prop: &str, tier: &str) -> Option<Plan> {
                 s.push(e1(prop, "u32", H_GOOD, 0, "rmold/predlite", &["cursor"], 72, 2, 0, "chk", 45.0));
                 s.push(e1(prop, "u32", H_LOW, 0, "rmold/predlite", &["cursor"], 72, 2, 0, "chk", 45.0));
                 s.push(e1(prop, "u32", H_GOOD, 0, "predlite", &["cursor"], 400, 1, 0, "chk", 45.0));
+                s.push(e1(prop, "u32", H_GOOD, 0, "rmold/rmold/predlite", &["cursor"], 72, 3, 0, "chk", 45.0));
                 s.push(e1(prop, "tk", H_GOOD, 0, "pred", &["cursor"], 64, 1, 0, "chk", 45.0));
                 s.push(e2(prop, "u32", H_GOOD, "mut1+ch0+shape2+pred", &["cursor"], 3, "chk", 45.0));
                 bounds = json!({"E1": "all predicates (incl. 2^k subsets of class representatives) at every point of the growth path to N=64 (4 hashers) / 130, and structural predicates after <=1 deviation up to N=18", "E2": "fixpoint u=3"});
